@@ -448,6 +448,160 @@ def collect_models(chk, futs):
         chk.set("transitions", trans)
 
 
+# ------------------------------------------------------------------------------------------------------------------
+# code -> Impl spec: recorded executions of the real runtime must be behaviours of Pipeline.tla (DRIFT detector)
+
+def gen_refine(rng, out, prop):
+    """Single stream, no write delay, finite N: the fragment Pipeline.tla models."""
+    avg = rng.choice([2, 2, 3]) if prop == "C10" else 1
+    d = stream_line(rng, 0, "refine", avg)
+    d["frames"] = rng.randint(avg, 2 * avg) if avg > 1 else rng.randint(1, 4)
+    d["delay_ms"] = 0
+    d["camstop"] = rng.choice([0, 2])
+    epochs = rng.choice([1, 2])
+    if prop == "C09":
+        if rng.random() < 0.5:
+            d["camfail"] = rng.randint(0, d["frames"] - 1)
+        else:
+            d["stofail"] = rng.randint(0, 1)
+    fb = max(frame_bytes(d["w"], d["h"], d["type"]), acc_bytes(d["w"], d["h"]) if avg > 1 else 0)
+    cap = int(fb * rng.choice([1.3, 2.2, 3.4])) + 5
+    lines = sched_lines(rng, 4) + ["cap %d" % cap, "fill 0", "streams 1", fmt_stream(0, d)]
+    prog = []
+    for e in range(epochs):
+        if e > 0 and (d["camfail"] >= 0 or d["stofail"] >= 0):
+            prog += ["configure"]
+        prog += ["start"]
+        end = "abort" if (prop in ("C07", "C09") and rng.random() < 0.5) else "stop"
+        if rng.random() < 0.5:
+            prog += ["monitor", "0", "-1", "0"] if end == "stop" else ["yield", str(rng.choice([0, 5, 30]))]
+        else:
+            prog += ["yield", str(rng.choice([0, 3, 20, 80]))]
+        prog += [end]
+    lines += ["prog " + " ".join(prog), "out " + out]
+    K = -(-cap // fb) + 1
+    consts = dict(n=d["frames"], k=K, avg=avg, epochs=epochs, abort=True, monitor=True,
+                  camfail=d["camfail"] if d["camfail"] >= 0 else 99, storfail=d["stofail"] if d["stofail"] >= 0 else 99)
+    return "\n".join(lines) + "\n", consts
+
+
+def project(trace_path):
+    """Abstract event list for PipelineTrace.tla (stream 0 only)."""
+    out = []
+    last = None
+    mapped_nonempty = False
+    pending_fail_stop = False
+    for l in open(trace_path):
+        e = json.loads(l)
+        k = e["e"]
+        ev = None
+        if k == "Api":
+            if e["op"] == "start":
+                ev = {"e": "StartCall" if e["ph"] == "call" else "StartRet"}
+            elif e["op"] == "stop":
+                ev = {"e": "StopCall" if e["ph"] == "call" else "StopRet"}
+            elif e["op"] == "abort":
+                ev = {"e": "AbortCall" if e["ph"] == "call" else "StopRet"}
+            elif e["op"] == "shutdown":
+                break
+        elif k == "CamFrame":
+            ev = {"e": "CamFrame"}
+        elif k == "CamFail":
+            ev = {"e": "CamFail"}
+            pending_fail_stop = True
+        elif k == "CamStop":
+            # a failing frame call makes the HAL stop the camera itself: that stop belongs to the CamFail step of the model
+            if pending_fail_stop:
+                pending_fail_stop = False
+            else:
+                ev = {"e": "CamStop"}
+        elif k == "StorAppend":
+            ev = {"e": "Append", "n": len(e["frames"])}
+        elif k == "StorFail":
+            ev = {"e": "StorFail"}
+        elif k == "StorStop":
+            ev = {"e": "StorStop"}
+        elif k == "ThreadExit":
+            ev = {"e": {"s": "ExitS", "f": "ExitF"}.get(e["name"][0] if e["name"][1] != "i" else "k", "ExitK")}
+            ev = {"e": "ExitS" if e["name"].startswith("source") else "ExitF" if e["name"].startswith("filter") else "ExitK"}
+        elif k == "MonMap":
+            if e["frames"]:
+                ev = {"e": "MonMap", "n": len(e["frames"])}
+                mapped_nonempty = True
+        elif k == "MonUnmap":
+            if mapped_nonempty:
+                ev = {"e": "MonUnmap"}
+            mapped_nonempty = False
+        if k in ("CamFail", "CamStop", "CamFrame", "StorAppend", "Api"):
+            last = k
+        if ev:
+            ev.setdefault("n", 0)
+            out.append(ev)
+    return out
+
+
+def refine_family(chk, prop, exe, bdir, rng, n):
+    """Runs n executions in the modelled fragment and checks each against Pipeline.tla. Returns (accepted, rejected)."""
+    jobs = []
+    for i in range(n):
+        out = os.path.join(bdir, "rf_%d.ndjson" % i)
+        cfgp = os.path.join(bdir, "rf_%d.cfg" % i)
+        txt, consts = gen_refine(rng, out, prop)
+        open(cfgp, "w").write(txt)
+        jobs.append((cfgp, out, consts, txt))
+    res = run_many(exe, [j[0] for j in jobs], timeout=120)
+    for (cfgp, out, consts, txt), (rc, o) in zip(jobs, res):
+        if rc != 0:
+            raise Broken("pipe_vs exited abnormally (rc=%s) on a refine scenario:\n%s" % (rc, txt))
+
+    def one(j):
+        cfgp, out, consts, txt = j
+        evs = project(out)
+        if any('"Hang"' in l or '"Crash"' in l for l in open(out)):
+            return None      # judged by the Obs spec, not a refinement question
+        tr = out + ".abs"
+        with open(tr, "w") as f:
+            for e in evs:
+                f.write(json.dumps(e) + "\n")
+        mc = out + ".cfg"
+        t = "CONSTANTS N = %d K = %d AVG = %d Epochs = %d WithAbort = TRUE WithMonitor = TRUE CamFailAt = %d StorFailAt = %d Repaired = TRUE\n" % (
+            consts["n"], consts["k"], consts["avg"], consts["epochs"], consts["camfail"], consts["storfail"])
+        t += "SPECIFICATION TSpec\nINVARIANT NotAccepted\nACTION_CONSTRAINT TrackMax\nPOSTCONDITION Report\nCHECK_DEADLOCK FALSE\n"
+        write_cfg(mc, t)
+        r = tlc("PipelineTrace", mc, bdir, workers=1, timeout=600, env={"TRACE": tr}, coverage=False, heap="3g", dfs_queue=True)
+        if r.violated == "NotAccepted":
+            return True, len(evs), r.distinct, txt, evs
+        if r.error or r.timed_out or r.rc not in (0,):
+            raise Broken("PipelineTrace failed on %s: rc=%s %s\n%s" % (tr, r.rc, r.error, r.out[-1500:]))
+        mx = [l for l in r.printed if l.startswith('<<"MAXL"')]
+        return False, len(evs), r.distinct, txt, evs, (mx[0] if mx else "")
+    with cf.ThreadPoolExecutor(max_workers=NCPU) as ex:
+        outs = [o for o in ex.map(one, jobs) if o is not None]
+    acc = sum(1 for o in outs if o[0])
+    rej = [o for o in outs if not o[0]]
+    chk.set("impl_traces_checked_against_Pipeline_tla", len(outs))
+    chk.set("impl_traces_accepted_by_Pipeline_tla", acc)
+    chk.add("events_validated", sum(o[1] for o in outs))
+    for o in rej[:3]:
+        chk.drift_note("an execution of the real runtime is not a behaviour of Pipeline.tla (%s): %s ... events %s" % (
+            o[5], [l for l in o[3].splitlines() if l.startswith(("prog", "stream", "cap"))], " ".join("%s%s" % (e["e"], e["n"] or "") for e in o[4])))
+    if rej:
+        chk.assume("DRIFT: %d of %d executions are not behaviours of Pipeline.tla; the model-level result does not transfer for this run" % (len(rej), len(outs)))
+    if outs:
+        chk.sample({"abstract_trace_checked_against_Pipeline": outs[0][4][:20]})
+    for j in jobs:
+        for suf in ("", ".abs", ".cfg"):
+            try:
+                os.remove(j[1] + suf)
+            except OSError:
+                pass
+        try:
+            os.remove(j[0])
+        except OSError:
+            pass
+    return acc, len(rej)
+
+
 def main(prop, tier):
     chk = Check(prop, tier, "model_checking" if prop not in ("C09",) else "fault_enumeration")
     bdir = build_dir(prop)
@@ -469,6 +623,8 @@ def main(prop, tier):
                 head.append(json.loads(l) if len(l) < 600 else l[:300])
         chk.sample({"family": fam, "trace_prefix": head})
         os.remove(allp)
+    if prop in ("C04", "C06", "C07", "C09", "C10"):
+        refine_family(chk, prop, exe, bdir, rng, 200 if tier == "thorough" else 48)
     collect_models(chk, mfuts)
     mex.shutdown()
     if total_events < 1000:
